@@ -94,6 +94,41 @@ var c13Malformations = []string{
 	"tcb-17", "tcb-19", "trailing-top", "trailing-inner", "trailing-tcb", "truncated", "no-sgx-ext", "ext-5", "ext-7", "top-3-elements", "top-not-sequence",
 }
 
+// c13Oddities are encodings the property does not classify (an element is replaced by one with an
+// unknown OID, so a required value is simply absent): extraction may succeed or fail, but must not crash.
+var c13Oddities = []string{"tcb-oid-arc-0", "tcb-oid-arc-19", "tcb-oid-arc-200", "tcb-oid-arc-huge", "tcb-oid-short", "tcb-oid-other-prefix", "top-oid-arc-0", "top-oid-arc-9", "tcb-dup-component", "pcesvn-oid-with-octet", "cpusvn-oid-with-int-at-comp"}
+
+func c13Oddity(t *rapid.T, kind string, top *gen.Node) []byte {
+	tcb := tcbNode(top)
+	ci := rapid.IntRange(0, 17).Draw(t, "oi")
+	pre := []int{1, 2, 840, 113741, 1, 13, 1}
+	switch kind {
+	case "tcb-oid-arc-0":
+		tcb.Kids[ci].Kids[0] = gen.OID(append(append([]int{}, pre...), 2, 0)...)
+	case "tcb-oid-arc-19":
+		tcb.Kids[ci].Kids[0] = gen.OID(append(append([]int{}, pre...), 2, 19)...)
+	case "tcb-oid-arc-200":
+		tcb.Kids[ci].Kids[0] = gen.OID(append(append([]int{}, pre...), 2, 200)...)
+	case "tcb-oid-arc-huge":
+		tcb.Kids[ci].Kids[0] = gen.OID(append(append([]int{}, pre...), 2, 1<<30)...)
+	case "tcb-oid-short":
+		tcb.Kids[ci].Kids[0] = gen.OID(pre...)
+	case "tcb-oid-other-prefix":
+		tcb.Kids[ci].Kids[0] = gen.OID(2, 5, 29, 14)
+	case "top-oid-arc-0":
+		top.Kids[rapid.IntRange(0, 3).Draw(t, "ti")].Kids[0] = gen.OID(append(append([]int{}, pre...), 0)...)
+	case "top-oid-arc-9":
+		top.Kids[rapid.IntRange(0, 3).Draw(t, "ti")].Kids[0] = gen.OID(append(append([]int{}, pre...), 9)...)
+	case "tcb-dup-component":
+		tcb.Kids[ci].Kids[0] = tcb.Kids[(ci+1)%16].Kids[0].Clone()
+	case "pcesvn-oid-with-octet":
+		tcb.Kids[16].Kids[1] = gen.Octet([]byte{1, 2})
+	case "cpusvn-oid-with-int-at-comp":
+		tcb.Kids[ci%16].Kids[0] = gen.OID(append(append([]int{}, pre...), 2, 18)...)
+	}
+	return top.Encode()
+}
+
 func c13Mutate(t *rapid.T, kind string, top *gen.Node, s *gen.Stream) (der []byte, nExt int, include bool) {
 	nExt, include = 6, true
 	tcb := tcbNode(top)
@@ -186,6 +221,9 @@ func c13Replay(c map[string]any) string {
 	if v.Panicked() {
 		return "crashed: " + v.Panic
 	}
+	if c["expect"] == "nopanic" {
+		return ""
+	}
 	if c["expect"] == "error" {
 		if v.Accepted() {
 			return fmt.Sprintf("malformed variant %v extracted without error: %+v", c["variant"], got)
@@ -221,6 +259,7 @@ func init() { replayKinds["sgxext"] = c13Replay }
 
 func TestC13(t *testing.T) {
 	replayDir(t, "C13")
+	gen.Prop(t, "unclassified-encodings-do-not-crash", gen.N(8000, 500000), c13OddityProp)
 	gen.Prop(t, "wellformed", gen.N(60000, 5000000), func(t *rapid.T) {
 		s := gen.NewStream(rapid.Uint64().Draw(t, "content"), "c13")
 		v := drawSgxValues(t, s)
@@ -307,6 +346,22 @@ func TestC13(t *testing.T) {
 		gen.NonTrivial(kind, der)
 		gen.Sample("malformed", map[string]any{"variant": kind, "error": vd.Err.Error()})
 	})
+}
+
+func c13OddityProp(t *rapid.T) {
+	s := gen.NewStream(rapid.Uint64().Draw(t, "content"), "c13o")
+	v := drawSgxValues(t, s)
+	kind := rapid.SampledFrom(c13Oddities).Draw(t, "oddity")
+	der := c13Oddity(t, kind, gen.SgxTree(v))
+	gen.Eval()
+	_, vd := c13Extract(certWith(der, 6, rapid.IntRange(0, 5).Draw(t, "pos"), true))
+	if vd.Panicked() {
+		gen.Fail(t, gen.Violation{Key: "panic@" + gen.PanicSite(vd.Stack), Oracle: "extraction returns values or an error", Detail: kind + ": " + vd.Panic,
+			Replay: map[string]any{"kind": "sgxext", "sgx_hex": hex.EncodeToString(der), "n_ext": 6, "pos": 0, "include": true, "expect": "nopanic"}})
+		return
+	}
+	gen.Class("oddity:" + kind + ":" + vd.Short())
+	gen.NonTrivial("oddity", kind, der)
 }
 
 func seqInts(n int) []int {
